@@ -1,3 +1,143 @@
-/-! # C08 — property theorems (stub: nothing stated yet) -/
+import SR.Proofs.SemTester
+import SR.Proofs.SemObjects
+/-!
+# C08 — the linearizability tester decides linearizability exactly
+
+Property theorems only. Model: `SR/Sem/Lin.lean` (`Tester` with `rt = true` = linearizability.rs:
+`on_invoke` / `on_return` with the sticky validity flag and the recorded last-completed indices,
+`serialize` = the backtracking search in the code's order). Declarative side: `SR/Sem/Spec.lean`
+(`WellFormed`, `IsLinearization`: a duplicate-free list of operation ids containing every completed
+operation, no operation placed before one that must precede it in program order or in real time —
+real time read off *event positions* —, legal for the sequential specification).
+
+`spec.Lawful` is C18's contract on `is_valid_step` (verdict = invoke-and-compare, accepted step
+leaves `invoke`'s object); it holds for the trait's default and for Register / WORegister / Vec.
+-/
 namespace SR.C08
+open SR.Sem SR.Sem.Tester SR.Sem.AMap
+
+variable {S Op Ret : Type} (spec : SeqSpec S Op Ret) (s0 : S)
+
+/-- the tester after `on_invoke` / `on_return` calls `es` on `LinearizabilityTester::new(s0)` -/
+abbrev recordLin (s0 : S) (es : List (Event Op Ret)) : Tester S Op Ret := Tester.record true s0 es
+
+/-- any serialization the tester returns is a linearization -/
+theorem C08_sound (hlaw : spec.Lawful) (es : List (Event Op Ret)) (l : List (Op × Ret))
+    (h : serializedHistory spec (recordLin s0 es) = some l) : IsLinearization spec s0 es l :=
+  tester_sound hlaw s0 es l h
+
+/-- if a well-formed history has a linearization the search finds one -/
+theorem C08_complete (hlaw : spec.Lawful) (es : List (Event Op Ret)) (hwf : WellFormed es)
+    (h : ∃ l, IsLinearization spec s0 es l) : (serializedHistory spec (recordLin s0 es)).isSome = true := by
+  obtain ⟨l, hl⟩ := h
+  exact tester_complete hlaw s0 es hwf l hl
+
+/-- `is_consistent` ⇔ a linearization exists (in-flight operations optional) -/
+theorem C08_consistent_iff (hlaw : spec.Lawful) (es : List (Event Op Ret)) (hwf : WellFormed es) :
+    isConsistent spec (recordLin s0 es) = true ↔ ∃ l, IsLinearization spec s0 es l := by
+  unfold isConsistent
+  constructor
+  · intro h
+    cases hs : serializedHistory spec (recordLin s0 es) with
+    | none => rw [hs] at h; cases h
+    | some l => exact ⟨l, C08_sound spec s0 hlaw es l hs⟩
+  · exact C08_complete spec s0 hlaw es hwf
+
+/-- every call on a well-formed history returns `Ok` -/
+theorem C08_wellformed_ok (es : List (Event Op Ret)) (hwf : WellFormed es) :
+    results true (Tester.new s0) es = List.replicate es.length Res.ok := results_wellFormed s0 es hwf
+
+/-- an ill-formed history has a first inadmissible event -/
+theorem C08_illformed_split (es : List (Event Op Ret)) (h : ¬ WellFormed es) :
+    ∃ p e q, es = p ++ e :: q ∧ WellFormed p ∧ ¬ Admissible p e := by
+  rcases exists_first_illformed es with h' | h'
+  · exact absurd h' h
+  · exact h'
+
+/-- ill-formed histories: the calls before the first inadmissible event succeed, that event gets the
+    matching error (`errInFlight` for a second invocation, `errNoInFlight` for a return without an
+    invocation), every later call gets "earlier history was invalid" (sticky), and the tester is
+    inconsistent and returns no serialization — whatever follows -/
+theorem C08_illformed (p q : List (Event Op Ret)) (e : Event Op Ret) (hp : WellFormed p) (he : ¬ Admissible p e) :
+    results true (Tester.new s0) (p ++ e :: q) =
+      List.replicate p.length Res.ok ++ errOf e :: List.replicate q.length Res.errEarlier ∧
+    isConsistent spec (recordLin s0 (p ++ e :: q)) = false ∧
+    serializedHistory spec (recordLin s0 (p ++ e :: q)) = none := by
+  have hn := tester_illformed_none (rt := true) spec s0 (p ++ e :: q) (wellFormed_not_of_split he)
+  exact ⟨(illformed_record s0 hp he).2, by unfold isConsistent recordLin; rw [hn]; rfl, hn⟩
+
+/-- the validity flag is exactly well-formedness -/
+theorem C08_valid_iff (es : List (Event Op Ret)) : (recordLin s0 es).valid = true ↔ WellFormed es :=
+  record_valid_iff s0 es
+
+/-- the recorded last-completed indices capture exactly "returned before the invocation": for an
+    operation `b` recorded with map `lc` (completed: `history_by_thread[t][i]`, or in flight) and an
+    operation `a` of another thread, `a` precedes `b` in real time iff `a.index ≤ lc[a.thread]` -/
+theorem C08_bookkeeping (es : List (Event Op Ret)) (hwf : WellFormed es) :
+    (∀ t i lc op r, ((find? t (recordLin s0 es).hist).getD [])[i]? = some (lc, op, r) →
+      ∀ a : OpId, a.1 ≠ t → (PrecedesRT es a (t, i) ↔ ∃ m, find? a.1 lc = some m ∧ a.2 ≤ m)) ∧
+    (∀ t lc op, find? t (recordLin s0 es).inflight = some (lc, op) →
+      ∀ a : OpId, a.1 ≠ t → (PrecedesRT es a (t, (retsOf es t).length) ↔ ∃ m, find? a.1 lc = some m ∧ a.2 ≤ m)) := by
+  have hI := rinv_record (rt := true) s0 es hwf
+  constructor
+  · intro t i lc op r hg a ha
+    have := ((hI.hist t).2 i lc op r hg).2.2.iff a ha
+    rw [this]; simp
+  · intro t lc op hf a ha
+    have := (hI.infl t lc op hf).2.2.2.iff a ha
+    rw [this]; simp
+
+/-- what the recorded entries are: thread `t`'s queue lists its completed operations in order
+    (operation and return of the `i`-th one), its in-flight entry is the pending invocation -/
+theorem C08_recorded (es : List (Event Op Ret)) (hwf : WellFormed es) (t : Nat) :
+    ((find? t (recordLin s0 es).hist).getD []).length = (retsOf es t).length ∧
+    (∀ i lc op r, ((find? t (recordLin s0 es).hist).getD [])[i]? = some (lc, op, r) →
+      opAt es (t, i) = some op ∧ retAt es (t, i) = some r) ∧
+    ((find? t (recordLin s0 es).inflight).isSome = true ↔ InFlightIn es t) ∧
+    (∀ lc op, find? t (recordLin s0 es).inflight = some (lc, op) → opAt es (t, (retsOf es t).length) = some op) := by
+  have hI := rinv_record (rt := true) s0 es hwf
+  refine ⟨(hI.hist t).1, ?_, (hI.inFlight_iff t).symm, ?_⟩
+  · intro i lc op r hg
+    have := (hI.hist t).2 i lc op r hg
+    exact ⟨this.1, this.2.1⟩
+  · intro lc op hf; exact (hI.infl t lc op hf).2.2.1
+
+/-- `len` = completed + in-flight operations: the completed ones are the return events, the
+    in-flight ones the invocations without return, together the invocation events -/
+theorem C08_len (es : List (Event Op Ret)) (hwf : WellFormed es) :
+    (recordLin s0 es).len = (es.filter isInv).length ∧
+    ((recordLin s0 es).hist.map fun e => e.2.length).sum = (es.filter fun e => !isInv e).length ∧
+    (recordLin s0 es).inflight.length = (es.filter isInv).length - (es.filter fun e => !isInv e).length := by
+  obtain ⟨h1, h2⟩ := len_record (rt := true) s0 es hwf
+  refine ⟨len_eq s0 es hwf, h1, ?_⟩
+  show (record true s0 es).inflight.length = _
+  omega
+
+/-! ## non-vacuity: the crate's own unit-test histories -/
+section examples
+open SR.Sem
+
+/-- Read ∥ Write('B'), the read returns 'B' (identifies_linearizable_register_history) -/
+def h1 : List (Event (RegOp Nat) (RegRet Nat)) := [.inv 0 .read, .inv 1 (.write 66), .ret 0 (.readOk 66)]
+
+example : serializedHistory (register Nat) (recordLin 65 h1) = some [(.write 66, .writeOk), (.read, .readOk 66)] := by
+  decide
+example : IsLinearization (register Nat) 65 h1 [(.write 66, .writeOk), (.read, .readOk 66)] :=
+  C08_sound (register Nat) 65 (register_lawful Nat) h1 _ (by decide)
+example : WellFormed h1 := (C08_valid_iff 65 h1).1 (by decide)
+
+/-- Push(10) completed, then Pop returning None: sequentially consistent but not linearizable -/
+def h2 : List (Event (VecOp Nat) (VecRet Nat)) :=
+  [.inv 0 (.push 10), .ret 0 .pushOk, .inv 1 .pop, .ret 1 (.popOk none)]
+example : ¬ ∃ l, IsLinearization (vec Nat) [] h2 l := by
+  have hwf : WellFormed h2 := (C08_valid_iff ([] : List Nat) h2).1 (by decide)
+  rw [← C08_consistent_iff (vec Nat) [] (vec_lawful Nat) h2 hwf]
+  decide
+
+/-- a second invocation while one is in flight (rejects_invalid_history) -/
+example : results true (Tester.new (65 : Nat))
+    ([.inv 99 (.write 66), .inv 99 (.write 67), .ret 99 .writeOk] : List (Event (RegOp Nat) (RegRet Nat)))
+    = [Res.ok, Res.errInFlight, Res.errEarlier] := by decide
+end examples
+
 end SR.C08
